@@ -1,0 +1,18 @@
+//go:build verif
+
+// Contracts for package rlpstruct, checked by /verif/govc (comment-only; see /verif/DESIGN.md).
+package rlpstruct
+
+// ---------------------------------------------------------------- C16: the empty value of a nil pointer
+// A nil pointer encodes as the empty string (0x80) exactly for the types whose own encoding is a
+// string (unsigned integers, strings, booleans, byte arrays and byte slices) and as the empty list
+// (0xC0) for everything else; the decoder accepts only that kind back, so the choice is part of the
+// canonical form. reflect.Kind values: Bool=1, Uint..Uintptr=7..12, Array=17, Slice=23, String=24.
+
+//@ func (t Type) DefaultNilValue() (r NilKind)
+//@   for C16
+//@   requires (t.Kind == 23 || t.Kind == 17) ==> t.Elem != nil
+//@   ensures [stringKinds] ((t.Kind >= 7 && t.Kind <= 12) || t.Kind == 24 || t.Kind == 1) ==> r == NilKindString
+//@   ensures [byteSequences] ((t.Kind == 23 || t.Kind == 17) && t.Elem.Kind == 8 && !t.Elem.IsEncoder) ==> r == NilKindString
+//@   ensures [everythingElseIsList] !((t.Kind >= 7 && t.Kind <= 12) || t.Kind == 24 || t.Kind == 1) && !((t.Kind == 23 || t.Kind == 17) && t.Elem.Kind == 8 && !t.Elem.IsEncoder) ==> r == NilKindList
+//@   ensures [oneOfTwo] r == NilKindString || r == NilKindList
